@@ -248,9 +248,11 @@ def rsa_low_hamming(r, bits=2048):
       return rsa_art(n, fam="low_hamming", expect=["CheckLowHammingWeight"])
 
 
-def rsa_bit_pattern(r, bits=2048):
+def rsa_bit_pattern(r, bits=2048, psize=None):
+  psize = psize or r.choice([8, 16, 32, 64, 127, 128, 255, 256])
+  if psize >= 127:
+    bits = 3072       # large patterns need n.bit_length() // 8 >= psize
   half = bits // 2
-  psize = r.choice([8, 16, 32, 64])
   pat = r.getrandbits(psize) | (1 << (psize - 1)) | 1
   v = 0
   for _ in range(half // psize):
